@@ -231,27 +231,37 @@ def gen_case(rng: random.Random, kind: str) -> dict:
           "message_text": "T " + " ".join("{{" + v + "}}" for v in scope) + (" {{count}}" if use_count else "")}]
     last = "t1"
     loop_var_after = None
+
+    def frm(src):
+        # rows follow each other (blank `from` = continue from the previous included row / loop / block);
+        # only the default exit of the wait is named explicitly
+        return src if src == "tw" else ""
+
     if use_items and rng.random() < 0.85:
         cond = ""
         if kind == "probe" and use_count and rng.random() < 0.5:
             cond = "{{count > 1}}"      # the loop exists in some instances only
-        t.append({"row_id": "tl", "type": "begin_for", "from": last, "loop_variable": "it;k", "message_text": "{@items@}",
+        t.append({"row_id": "tl", "type": "begin_for", "from": frm(last), "loop_variable": "it;k", "message_text": "{@items@}",
                   "include_if": cond})
         t.append({"row_id": "t2", "type": "send_message", "from": "", "message_text": "item {{k}} {{it}} of {{word}}",
                   "include_if": rng.choice(["", "", "{{k == 0}}", "{{it != ''}}"])})
         t.append({"row_id": "", "type": "end_for"})
-        last = "tl"
+        if not cond:
+            last = "tl"
+        else:
+            t.append({"row_id": "tl_after", "type": "send_message", "from": "", "message_text": "after the optional loop"})
+            last = "tl_after"
         loop_var_after = "it"
         feats.add("loop_items")
     if use_count and rng.random() < 0.4:
-        t.append({"row_id": "tr", "type": "begin_for", "from": last, "loop_variable": "n", "message_text": "{@range(count)@}"})
+        t.append({"row_id": "tr", "type": "begin_for", "from": frm(last), "loop_variable": "n", "message_text": "{@range(count + 1)@}"})
         t.append({"row_id": "t2r", "type": "send_message", "from": "", "message_text": "n {{n}} {{word}}"})
         t.append({"row_id": "", "type": "end_for"})
         last = "tr"
         loop_var_after = loop_var_after or "n"
         feats.add("loop_range_data")
     if use_sh and rng.random() < 0.8:
-        t.append({"row_id": "ts", "type": "begin_for", "from": last, "loop_variable": "o", "message_text": "{@sh.values()|list@}"})
+        t.append({"row_id": "ts", "type": "begin_for", "from": frm(last), "loop_variable": "o", "message_text": "{@sh.values()|list@}"})
         txt = "sheet row {{o.ID}} {{o.items}}" if sheet_self and use_items else ("sheet row {{o.ID}}" if sheet_self else "sheet row {{o.label}} {{word}}")
         t.append({"row_id": "t2s", "type": "send_message", "from": "", "message_text": txt})
         t.append({"row_id": "", "type": "end_for"})
@@ -264,30 +274,30 @@ def gen_case(rng: random.Random, kind: str) -> dict:
         inc.append("{{flag == 'yes'}}")
     inc.append("{{word == 'alpha'}}")
     if rng.random() < 0.8:
-        t.append({"row_id": "ti", "type": "send_message", "from": last, "message_text": "only some {{word}}",
+        t.append({"row_id": "ti", "type": "send_message", "from": frm(last), "message_text": "only some {{word}}",
                   "include_if": rng.choice(inc)})
         feats.add("include_if_data")
         # `last` stays: an excluded row cannot be a source
     if use_pair and rng.random() < 0.8:
-        t.append({"row_id": "tp", "type": "send_message", "from": last, "message_text": "pair {{pair.a}}/{{pair.b}}"})
+        t.append({"row_id": "tp", "type": "send_message", "from": frm(last), "message_text": "pair {{pair.a}}/{{pair.b}}"})
         last = "tp"
         feats.add("nested_field")
     has_insert = rng.random() < 0.6
     if has_insert:
-        t.append({"row_id": "tb", "type": "insert_as_block", "from": last, "message_text": "blk", "data_sheet": "other",
+        t.append({"row_id": "tb", "type": "insert_as_block", "from": frm(last), "message_text": "blk", "data_sheet": "other",
                   "data_row_id": "{{oid}}" if use_oid else "o1",
                   "template_arguments": rng.choice(["{{word}}", "{{word}}", ""])})
         last = "tb"
         feats.add("insert_as_block")
     if rng.random() < 0.5:
-        t.append({"row_id": "tw", "type": "wait_for_response", "from": last})
+        t.append({"row_id": "tw", "type": "wait_for_response", "from": frm(last)})
         t.append({"row_id": "ty", "type": "send_message", "from": "tw", "condition": "{{word}}", "message_text": "matched {{word}}"})
         if rng.random() < 0.5:
             t.append({"row_id": "", "type": "hard_exit", "from": "ty"})
         last = "tw"
         feats.add("wait")
     if rng.random() < 0.3:
-        t.append({"row_id": "tg", "type": "add_to_group", "from": last, "message_text": "G {{word}}"})
+        t.append({"row_id": "tg", "type": "add_to_group", "from": frm(last), "message_text": "G {{word}}"})
         last = "tg"
         feats.add("group")
     pre_rows, post_rows = [], []
@@ -303,21 +313,18 @@ def gen_case(rng: random.Random, kind: str) -> dict:
         choices += ["other_template_arg", "mutate_own" if use_items else "other_template_arg"]
         probe = rng.choice(choices)
         if probe == "loop_var":
-            t.append({"row_id": "tz", "type": "send_message", "from": last, "message_text": "after loop [{{" + loop_var_after + "}}]"})
+            t.append({"row_id": "tz", "type": "send_message", "from": frm(last), "message_text": "after loop [{{" + loop_var_after + "}}]"})
         elif probe == "block_arg":
-            t.append({"row_id": "tz", "type": "send_message", "from": last, "message_text": "after block [{{" + rng.choice(["bword", "label"]) + "}}]"})
+            t.append({"row_id": "tz", "type": "send_message", "from": frm(last), "message_text": "after block [{{" + rng.choice(["bword", "label"]) + "}}]"})
         elif probe == "other_template_arg":
             extra_sheets["tmpl2"] = rows_to_csv(H, [{"row_id": "u1", "type": "send_message", "from": "start", "message_text": "second {{secret}}"}])
             pre_rows.append({"type": "template_definition", "sheet_name": "tmpl2", "template_arguments": "secret;;s3cr3t|"})
             pre_rows.append({"type": "create_flow", "sheet_name": "tmpl2", "template_arguments": rng.choice(["", "S"])})
-            t.append({"row_id": "tz", "type": "send_message", "from": last, "message_text": "other template [{{secret}}]"})
+            t.append({"row_id": "tz", "type": "send_message", "from": frm(last), "message_text": "other template [{{secret}}]"})
         elif probe in ("mutate", "mutate_own"):
             # a template that changes a list of its context while being evaluated: visible to this instance only
-            t.insert(1, {"row_id": "tm", "type": "send_message", "from": "t1", "message_text": "{@ items.append('LEAK') or 'mutated' @}"})
-            for row in t[2:]:
-                if row.get("from") == "t1":
-                    row["from"] = "tm"
-            t.append({"row_id": "tz", "type": "send_message", "from": last, "message_text": "items now {{items}}"})
+            t.insert(1, {"row_id": "tm", "type": "send_message", "from": "", "message_text": "{@ items.append('LEAK') or 'mutated' @}"})
+            t.append({"row_id": "tz", "type": "send_message", "from": frm(last), "message_text": "items now {{items}}"})
         feats.add("probe_" + probe)
     fault = None
     if kind == "malformed":
@@ -332,7 +339,7 @@ def gen_case(rng: random.Random, kind: str) -> dict:
         elif fault == "unknown_sheet":
             defs.append(("sh2", "sheet", "nowhere"))
         elif fault == "undefined_field":
-            t.append({"row_id": "tz", "type": "send_message", "from": last, "message_text": "no such field {{nofield}}"})
+            t.append({"row_id": "tz", "type": "send_message", "from": frm(last), "message_text": "no such field {{nofield}}"})
         feats.add("fault_" + fault)
     # ---- a plain flow around it
     if rng.random() < 0.5:
@@ -465,6 +472,10 @@ def check_case(case: dict, drv, rng: random.Random | None = None, perm=None, wan
                                  {"bulk": A.errors[:6], "alone": {i: s.errors[:3] for i, s in solos.items()}}))
     if not A.ok:
         info["status"] = "rejected"
+        tie_reqs = [(label, run, tie_req(run)) for label, run in (("A", A), ("B", B))]
+        tie_reqs = [t for t in tie_reqs if t[2] is not None]
+        answers = drv.results([t[2] for t in tie_reqs]) if tie_reqs else []
+        info["ties"] = [(label, tie_eval(run, ans)) for (label, run, _), ans in zip(tie_reqs, answers)]
         return ("rejected" if not problems else "violation"), problems, info
 
     # -- (i) names, order, one per data row
@@ -503,8 +514,12 @@ def check_case(case: dict, drv, rng: random.Random | None = None, perm=None, wan
             if want_bisim and label != "permuted single rows":
                 reqs.append({"op": "flow.bisim", "a": canon_flow(a1), "b": canon_flow(fo[0]), "lvl": FULL})
                 req_names.append((nm, label))
+    tie_reqs = [(label, run, tie_req(run)) for label, run in (("A", A), ("B", B))]
+    tie_reqs = [t for t in tie_reqs if t[2] is not None]
+    answers = drv.results(reqs + [t[2] for t in tie_reqs]) if (reqs or tie_reqs) else []
+    info["ties"] = [(label, tie_eval(run, ans)) for (label, run, _), ans in zip(tie_reqs, answers[len(reqs):])]
     if reqs:
-        for (nm, label), ans in zip(req_names, drv.results(reqs)):
+        for (nm, label), ans in zip(req_names, answers[:len(reqs)]):
             if "__error__" in ans:
                 raise core.Infra("driver: " + str(ans))
             if ans.get("equiv"):
@@ -538,11 +553,12 @@ def real_class(run: Run):
     return None
 
 
-def tie_run(run: Run, drv):
+def tie_req(run: Run):
+    return None if run.model_input is None else dict(run.model_input, op="bulk.run")
+
+
+def tie_eval(run: Run, ans):
     """None if model and real code agree on names / order / first error, else a detail dict"""
-    if run.model_input is None:
-        return "skipped"
-    ans = drv.results([dict(run.model_input, op="bulk.run")])[0]
     if "__error__" in ans:
         raise core.Infra("driver: " + str(ans))
     rc = real_class(run)
@@ -711,11 +727,9 @@ def case_worker(args):
         for what, detail in problems:
             bad.append({"case": case, "what": what, "detail": detail, "perm": info["perm"]})
         # tie B2 on the three indexes
-        for label, run in (("A", info["A"]), ("B", info["B"])):
-            d = tie_run(run, drv)
-            if d == "skipped":
-                bump("tie_run_skipped")
-            elif d is not None:
+        bump("tie_run_skipped", 2 - len(info.get("ties", [])))
+        for label, d in info.get("ties", []):
+            if d is not None:
                 ties.append({"what": f"model parseAllFlows vs real parse_all_flows ({label})", "detail": d})
             else:
                 bump("tie_run_agree")
